@@ -145,6 +145,61 @@ class Ast:
             self._raw[relpath] = json.load(open(p))["items"]
         return self._raw[relpath]
 
+    known = None  # crate -> set of function names of the reviewed tree (ref/fn_names.json), set by core.Ctx
+    PRIVATE_VIS = ("", "pub(crate)", "pub(super)", "pub(self)", "pub(in crate)")
+
+    def new_private(self, crate):
+        """private, non-trait functions that the reviewed tree did not have (helpers extracted since), by unique name"""
+        if not self.known or crate not in self.known:
+            return {}
+        if not hasattr(self, "_np"):
+            self._np = {}
+        if crate not in self._np:
+            counts = {}
+            for it in self.crates[crate]:
+                if it["k"] == "Fn":
+                    counts[it["name"]] = counts.get(it["name"], 0) + 1
+            self._np[crate] = {it["name"]: it for it in self.crates[crate] if it["k"] == "Fn" and it.get("body") is not None and it["name"] not in self.known[crate]
+                               and (it.get("vis") or "") in self.PRIVATE_VIS and not it.get("trait") and counts[it["name"]] == 1 and len(it["name"]) > 3}
+        return self._np[crate]
+
+    def written_out(self, crate, item, depth=0):
+        """copy of a function item in which every call of a new private helper is replaced by a block: the helper's
+        parameters bound by `let`, then its body (so that rules that read the syntax tree of `item` find what moved)"""
+        np = self.new_private(crate)
+        if not np or item.get("body") is None or item["name"] in np:
+            return item
+        if not hasattr(self, "_wo"):
+            self._wo = {}
+        k = (crate, id(item))
+        if k in self._wo:
+            return self._wo[k]
+        import copy
+
+        def tr(n, d):
+            if isinstance(n, list):
+                return [tr(x, d) for x in n]
+            if not isinstance(n, dict):
+                return n
+            kk = n.get("k")
+            callee = None
+            args = None
+            if kk == "MethodCall" and n["m"] in np and n["recv"].get("k") == "Path" and n["recv"]["path"] == "self":
+                callee, args = np[n["m"]], n["args"]
+            elif kk == "Call" and n["f"].get("k") == "Path" and n["f"]["path"].split("::")[-1] in np:
+                callee, args = np[n["f"]["path"].split("::")[-1]], n["args"]
+            if callee is not None and d < 4:
+                params = [p for p in callee["sig"]["params"] if p.get("name") != "self"]
+                if len(params) == len(args):
+                    lets = [{"k": "Let", "pat": p["pat"], "init": tr(a, d), "else": None, "ty": None} for p, a in zip(params, args)]
+                    return {"k": "Block", "label": None, "body": lets + tr(copy.deepcopy(callee["body"]), d + 1), "written_out": callee["name"]}
+            return {kk2: tr(v, d) for kk2, v in n.items()}
+
+        out = dict(item)
+        out["body"] = tr(item["body"], 0)
+        self._wo[k] = out
+        return out
+
     def fns(self, crate, name=None, self_ty=None, mod=None, trait=None, items=None):
         out = []
         for it in (items if items is not None else self.crates[crate]):
@@ -158,7 +213,7 @@ class Ast:
                 continue
             if trait is not None and (it.get("trait") is None or trait not in it["trait"]):
                 continue
-            out.append(it)
+            out.append(self.written_out(crate, it) if items is None else it)
         return out
 
     def fn(self, crate, name, self_ty=None, mod=None, trait=None, items=None):
